@@ -411,3 +411,13 @@ Lemma failure_class_refuted_witness :
   Milenage_check aes128 opc1 k1 sqn1 rnd1 bad_autn1
   = CheckRet (-2) (f2 aes128 k1 opc1 rnd1) (f3 aes128 k1 opc1 rnd1) (f4 aes128 k1 opc1 rnd1) (Some (auts aes128 k1 opc1 rnd1 sqn1)).
 Proof. vm_compute. split; reflexivity. Qed.
+Lemma failure_class_refuted :
+  exists opc k sqn rand a,
+    length opc = 16%nat /\ length k = 16%nat /\ length rand = 16%nat /\ length sqn = 6%nat /\ length a = 16%nat /\
+    usim_check aes128 k opc rand a sqn = MacFailure /\
+    Milenage_check aes128 opc k sqn rand a
+    = CheckRet (-2) (f2 aes128 k opc rand) (f3 aes128 k opc rand) (f4 aes128 k opc rand) (Some (auts aes128 k opc rand sqn)).
+Proof.
+  destruct failure_class_refuted_witness as [W1 W2].
+  exists opc1, k1, sqn1, rnd1, bad_autn1. do 5 (split; [reflexivity|]). split; [exact W1|exact W2].
+Qed.
